@@ -125,7 +125,8 @@ def gen_pair(rnd: random.Random, cfg: Cfg, max_atoms: int, depth: int = 2):
     """Two marker texts over a narrowed vocabulary (merge-heavy), bounded in total atom count."""
     for _ in range(50):
         if rnd.random() < 0.5:
-            sv = rnd.sample(STRVARS, rnd.randint(1, 2))
+            base = cfg.few_vars or STRVARS
+            sv = rnd.sample(base, min(len(base), rnd.randint(1, 2)))
             sl = rnd.sample(STRLIT, rnd.randint(2, 4))
         else:
             sv, sl = None, None
